@@ -23,7 +23,7 @@ BOUND = {"quick": "11 selectors: C(<=2) x C(<=2) x 2 spellings; independence on 
 FLOOR = {"quick": 3000, "thorough": 20000}
 CHUNK = 1
 
-SELECTORS = ["LT01", "layout.spacing", "layout", "core", "all", "L003", "LT0*", "L*", "capitalisation.*", "ZZ99", "AM0?"]
+SELECTORS = ["LT01", "layout.spacing", "layout", "core", "all", "L003", "LT0*", "L*", "capitalisation.*", "ZZ99", "AM0?", "CP0[12]", "capitalisation.[k]eywords", "LT0[!1]"]
 _ST = {}
 
 
